@@ -92,3 +92,18 @@ PROPS["C12"] = dict(
     outside=["known finding regions: variable-length + limit + range (limit is applied to intervals before the range trim), N*RecordLen >= 2^31", "backward scans with symbolic N (the reader allocates N records up front)"],
     stubs=FS_STUBS + TICK_STUBS, assumptions=COMMON_ASSUME,
 )
+
+
+WAL_EXPL = "Bounded symbolic execution of the real durability protocol over the engine's file-system model with process crashes: start-up (NewWALFile, wal.Finder, WALCleaner.CleanupOldWALFiles -> TakeOverWALFile, Replay, replayTGData, Delete/wal.Move), Writer.WriteCSM -> FlushToWAL/FlushCommandsToWAL (WAL records, MD5, fsync, primary writes), CreateCheckpoint, and the read path of C08/C09 for the oracle. Scenario: process 1 creates the bucket, acknowledges write A and checkpoints; process 2 starts, issues writes B and C (optionally a checkpoint in between) and is killed before any one of its file-mutating system calls (every prefix, including none and all); process 3 starts, replays and is queried. Rows' intervals are case-split (same / different interval), seconds and values symbolic. "
+WAL_BOUNDS = ["one bucket, fixed-length (1D, int32 column) or variable-length (1D, int32 + Nanoseconds), compression disabled", "3 write requests of one row each over 2 candidate intervals (all 8 placements), second in the interval symbolic, values pairwise distinct int32", "optional checkpoint between the 2nd and 3rd write", "crash point: before every file-mutating call of process 2 (create, write, fsync, sync, truncate, rename, unlink, mkdir), plus no crash"]
+WAL_OUT = ["more than one bucket / three transactions; WAL rotation (C05)", "power loss (C04)", "snappy-compressed variable-length storage", "crashes inside process 1 or during process 3's own recovery (C34)"]
+
+PROPS["C01"] = dict(explanation=WAL_EXPL + "Oracle C01: every acknowledged fixed-length interval holds its last acknowledged value or that of the in-flight write; every acknowledged variable-length record is present.",
+    runs=[dict(pkg="executor", files=["c08_fixed.go", "c09_variable.go", "c11_range.go", "c01_walsim.go"], entries=["VerifC01Crash"], must_reach=["entered", "crashed", "restarted", "queried"], opts=dict(timeout=60))],
+    bounds=WAL_BOUNDS, outside=WAL_OUT, stubs=FS_STUBS + TICK_STUBS, assumptions=COMMON_ASSUME)
+PROPS["C02"] = dict(explanation=WAL_EXPL + "Oracle C02: no row that was not issued, no fixed-length interval twice, every acknowledged variable-length record exactly once, the in-flight one at most once, later ones absent.",
+    runs=[dict(pkg="executor", files=["c08_fixed.go", "c09_variable.go", "c11_range.go", "c01_walsim.go"], entries=["VerifC02Crash"], must_reach=["entered", "crashed", "restarted", "queried"], opts=dict(timeout=60))],
+    bounds=WAL_BOUNDS, outside=WAL_OUT + ["known finding region: exact duplication of replayed variable-length records"], stubs=FS_STUBS + TICK_STUBS, assumptions=COMMON_ASSUME)
+PROPS["C03"] = dict(explanation=WAL_EXPL + "Oracle C03: CleanupOldWALFiles returns nil (internal/di panics otherwise), nothing panics, and the bucket can be queried without error.",
+    runs=[dict(pkg="executor", files=["c08_fixed.go", "c09_variable.go", "c11_range.go", "c01_walsim.go"], entries=["VerifC03Crash"], must_reach=["entered", "crashed", "restarted"], opts=dict(timeout=60))],
+    bounds=WAL_BOUNDS, outside=WAL_OUT + ["with snappy compression enabled a crash inside a continuation write leaves a truncated compressed block that the reader reports as corrupt (seen natively while writing DESIGN.md); the codec is outside this check"], stubs=FS_STUBS + TICK_STUBS, assumptions=COMMON_ASSUME)
